@@ -89,7 +89,8 @@ def h05a(c, L=2, vwap="exclude", concrete_sizes=None):
         c.ob("conservation", sim.size_matched + sim.size_remaining + sim.size_cancelled + sim.size_lapsed + sim.size_voided == size)
         c.ob("remaining>=0", sim.size_remaining >= 0)
         tot = cm.total([f[2] for f in frags])
-        c.ob("size_matched=sum(fragments)", sim.size_matched == tot)
+        # (with the concrete sizes of H05c the harness's own float sum carries noise: 0.01 + 3.0 + 0.01 = 3.0199999999999996)
+        c.ob("size_matched=sum(fragments)", c.close(sim.size_matched, tot, 1e-9))
         c.ob("matched<=size", sim.size_matched <= size)
         for i, (pt, p, s) in enumerate(frags):
             c.ob("fragment%d.size>0" % i, s > 0)
@@ -293,7 +294,7 @@ def h05g(c):
 
 
 CS_Q = dict(order=[2.0, 5.0], level=[1.0, 3.0, 7.0])
-CS_T = dict(order=[0.03, 2.0, 5.0, 11.0], level=[0.01, 1.0, 3.0, 7.0])
+CS_T = dict(order=[0.03, 2.0, 5.0], level=[0.01, 1.0, 3.0])
 HARNESSES = [
     Harness("H05a", h05a, quick=dict(L=2), thorough=dict(L=3), pattern="P1 kernel-with-oracle",
             requires=["fill", "multi-level-fill", "fok-fill", "fok-kill", "fok-invalid-min-fill", "bpe-lapse", "version-lapse", "rest"],
